@@ -31,6 +31,7 @@ type pair struct {
 	src  string
 	xerr string // XGo compile error ("" = compiled)
 	xsrc []byte
+	xbad string // the Go written by XGo is rejected by go/parser / go/types: "<class>: message"
 	a, b compa.RunResult
 }
 
@@ -50,6 +51,10 @@ func runPairs(srcs []string) []pair {
 			ps[i].xerr = "PANIC " + esc
 		case err != nil:
 			ps[i].xerr = err.Error()
+		case badGo(out) != "":
+			// the written Go is rejected by go/parser or go/types: no need to build it
+			ps[i].xsrc = out
+			ps[i].xbad = badGo(out)
 		case compa.SameGoAST([]byte(s), out):
 			// the written Go is the same program up to layout: one binary serves both
 			ps[i].xsrc = out
@@ -70,12 +75,20 @@ func runPairs(srcs []string) []pair {
 	}
 	for i := range ps {
 		ps[i].a = res[idxA[i]]
-		if ps[i].xerr == "" {
+		if ps[i].xerr == "" && ps[i].xbad == "" {
 			ps[i].b = res[idxB[i]]
 		}
 	}
 	os.RemoveAll(dir)
 	return ps
+}
+
+func badGo(src []byte) string {
+	class, msg := env.GoCheck(src, nil)
+	if class == "" {
+		return ""
+	}
+	return class + ": " + msg
 }
 
 func normPanic(s string) string {
@@ -110,6 +123,9 @@ func verdict(p pair) (key, detail string) {
 			return "xgo-compile-panics", p.xerr
 		}
 		return "xgo-rejects-valid-go:" + compa.ErrClass(p.xerr), firstLine(p.xerr)
+	}
+	if p.xbad != "" {
+		return "xgo-output-invalid-go:" + strings.SplitN(p.xbad, ": ", 2)[0], p.xbad
 	}
 	if p.b.BuildErr != "" {
 		return "xgo-output-does-not-build:" + compa.ErrClass(p.b.BuildErr), firstLine(p.b.BuildErr)
